@@ -1133,7 +1133,7 @@ func (p *prover) atomFacts(key string, v ssa.Value) {
 	case *ssa.Call:
 		n := calleeName(&t.Call)
 		switch n {
-		case "strings.Index", "strings.IndexByte", "strings.LastIndex", "strings.IndexAny", "strings.IndexRune", "strings.LastIndexByte", "bytes.Index", "bytes.IndexByte", "strings.LastIndexAny":
+		case "strings.Index", "strings.IndexByte", "strings.LastIndex", "strings.IndexAny", "strings.IndexRune", "strings.LastIndexByte", "bytes.Index", "bytes.IndexByte", "strings.LastIndexAny", "slices.Index", "slices.IndexFunc":
 			p.ge(e, newLin(-1))
 			// idx < len(s) always (also for -1)
 			p.ge(p.lenOf(t.Call.Args[0]).add(newLin(1), -1), e)
